@@ -203,6 +203,31 @@ func c14RunAll(tpl *pongo2.Template, variant, k int, base *c14Result, partial st
 	return res, ticks, nil
 }
 
+// c14Outcome: how an execution ends when the k-th call of a context function panics
+func c14Outcome(tpl *pongo2.Template, variant, k int, entry string) (kind string) {
+	defer func() {
+		if p := recover(); p != nil {
+			kind = "panic"
+		}
+	}()
+	ctx := progContext(variant, &tickState{failAt: k, panics: true})
+	var err error
+	switch entry {
+	case "ExecuteBytes":
+		_, err = tpl.ExecuteBytes(ctx)
+	case "ExecuteWriter":
+		err = tpl.ExecuteWriter(ctx, &bytes.Buffer{})
+	case "ExecuteWriterUnbuffered":
+		err = tpl.ExecuteWriterUnbuffered(ctx, &bytes.Buffer{})
+	default:
+		_, err = tpl.Execute(ctx)
+	}
+	if err != nil {
+		return "error"
+	}
+	return "ok"
+}
+
 func checkC14(c any, r *Rec) error {
 	cs := c.(*c14Case)
 	errWriter = c14WriterErrs[cs.WErr%len(c14WriterErrs)]
@@ -285,6 +310,21 @@ func checkC14(c any, r *Rec) error {
 			return wrap(fmt.Errorf("a context with the key %q was accepted (rendered %q)", "not an identifier", res.out))
 		}
 		r.Class("bad-key-round")
+	}
+	// a caller-supplied function that panics: whatever the engine does with it (let it through,
+	// turn it into an error), the four variants do the same
+	if ticks > 0 {
+		k := 1 + cs.Variant%ticks
+		kinds := map[string]string{}
+		for _, entry := range []string{"Execute", "ExecuteBytes", "ExecuteWriter", "ExecuteWriterUnbuffered"} {
+			kinds[entry] = c14Outcome(tpl, cs.Variant, k, entry)
+		}
+		for _, entry := range []string{"ExecuteBytes", "ExecuteWriter", "ExecuteWriterUnbuffered"} {
+			if kinds[entry] != kinds["Execute"] {
+				return wrap(fmt.Errorf("a context function panics in its call %d: Execute ends with %q but %s with %q", k, kinds["Execute"], entry, kinds[entry]))
+			}
+		}
+		r.Class("panicking-function:" + kinds["Execute"])
 	}
 	// the first execution of a freshly compiled template through the unbuffered entry point
 	// must already agree (options such as TrimBlocks are not a side effect of the buffered paths)
